@@ -268,7 +268,10 @@ def gen_param_programs():
           '(0.1)x2', '(0.1 FIX)', 'SD 0.3', 'STANDARD 0.3 0.4', 'BLOCK(2) SD 0.3 0.01 0.4', 'BLOCK(2) CORRELATION 0.1 0.5 0.2',
           'BLOCK(2) SD CORRELATION 0.3 0.5 0.4', 'BLOCK(2) CHOLESKY 0.3 0.1 0.4', 'BLOCK(3) 0.1 0.01 0.2 0.02 0.03 0.3',
           'BLOCK(2) VARIANCE COVARIANCE 0.1 0.01 0.2', '0.1 ; IIV_CL\n 0.2 ; IIV_V', 'DIAGONAL(3) 0.1 0.2 0.3',
-          '(SD 0.3)', 'BLOCK(2)\n 0.1\n 0.01 0.2']
+          '(SD 0.3)', 'BLOCK(2)\n 0.1\n 0.01 0.2',
+          # SAME(m): the previous block is repeated m times
+          'BLOCK(1) 0.1\n$OMEGA BLOCK(1) SAME(2)\n$OMEGA 0.4', 'BLOCK(2) 0.1 0.01 0.2\n$OMEGA BLOCK(2) SAME(2)',
+          'BLOCK(1) 0.1\n$OMEGA BLOCK(1) SAME(1)\n$OMEGA 0.4']
     progs = []
 
     def prog(theta_body, omega_body, neta):
@@ -283,7 +286,8 @@ def gen_param_programs():
         for rec in o.split('$OMEGA'):
             m = re.search(r'(BLOCK|DIAGONAL)\((\d)\)', rec)
             if m:
-                n += int(m.group(2))
+                rep = re.search(r'SAME\((\d)\)', rec)
+                n += int(m.group(2)) * (int(rep.group(1)) if rep else 1)
             else:
                 nums = re.findall(r'(?<![A-Za-z(])\b\d*\.?\d+\b', re.sub(r';.*', '', rec))
                 rep = re.search(r'\)x(\d)', rec)
